@@ -133,7 +133,7 @@ func main() {
 		},
 		Exhaustive: true,
 	}, func(c *mon.Ctx) {
-		c.Cases("scenario", c.N(96, 3000), func(k *mon.Case) {
+		c.Cases("scenario", c.N(480, 8000), func(k *mon.Case) {
 			r := k.R
 			g := node.EqualGenesis(1 + r.Intn(4))
 			if r.Intn(3) == 0 {
